@@ -150,6 +150,38 @@ fn main() {
             if i % 4 == 0 { sample_one(&tc, kind, true, u, v, r); }
         }));
     }
+    // huge textures (8-bit texels, value = linear index mod 251): 2^25 texels along one axis - beyond the 2^24 integers f32
+    // counts exactly - for all three samplers, and widths f32 cannot represent (2^24 + 1, 2^24 + 3) for clamp and once
+    {
+        use re::util::buf::Slice2;
+        let data: Vec<u8> = (0..(1u32 << 25) + 8).map(|i| (i % 251) as u8).collect();
+        let shapes: Vec<(Kind, u32, u32)> = vec![(Kind::Repeat, 1 << 25, 1), (Kind::Repeat, 1, 1 << 25), (Kind::Clamp, 1 << 25, 1), (Kind::Once, 1 << 25, 1), (Kind::Clamp, 16777217, 1), (Kind::Clamp, 16777219, 2), (Kind::Clamp, 1, 16777219), (Kind::Once, 16777219, 1)];
+        let cs: Vec<f32> = vec![0.0, 0.5, 1.0, 1000.5, 8388607.5, 16777215.0, 16777216.0, 16777218.0, 16777220.0, 33554430.0, 33554432.0, 33554434.0, 5e7, 1e9, 2147483520.0, -1.0, -2.0, -0.5, -33554432.0, -33554434.0, -1e9, f32::INFINITY, f32::NEG_INFINITY, f32::NAN, f32::MAX];
+        let nc = cs.len() as u64;
+        rep.merge(par_range(&cfg, shapes.len() as u64 * nc * 2, |i, r| {
+            let (kind, w, h) = shapes[(i / (nc * 2)) as usize];
+            let (c, other) = (cs[(i % nc) as usize], [0.5f32, 1.5][(i / nc % 2) as usize]);
+            let along_x = w > h;
+            let (u, v) = if along_x { (c, other) } else { (other, c) };
+            let (eu, ev) = match (expect_axis(kind, u, w), expect_axis(kind, v, h)) { (Some(a), Some(b)) => (a, b), _ => return };
+            r.eval();
+            let tex = Texture::from(Slice2::new((w, h), w, &data[..(w as usize * h as usize).min(data.len())]));
+            let got = match kind {
+                Kind::Repeat => { let s = SamplerRepeatPot::new(&tex); caught(|| s.sample_abs(&tex, uv(u, v))) }
+                Kind::Clamp => caught(|| SamplerClamp.sample_abs(&tex, uv(u, v))),
+                Kind::Once => caught(|| SamplerOnce.sample_abs(&tex, uv(u, v))),
+            };
+            let case = obj! {"kind" => "huge", "sampler" => format!("{kind:?}"), "w" => w, "h" => h, "u" => fbits(u), "v" => fbits(v)};
+            let tag = format!("{kind:?}|{w}x{h}|u={u:e}|v={v:e}");
+            match got {
+                Err(p) => r.violation(format!("tex-panic|huge|{tag}"), format!("{kind:?} sampler on a {w}x{h} texture at ({u:e},{v:e}) panicked: {p}"), case),
+                Ok(t) => {
+                    // expected texel value where both axes are determined
+                    if let (Some(x), Some(y)) = (eu, ev) { let want = ((y as u64 * w as u64 + x as u64) % 251) as u8; if t != want { r.violation(format!("tex-addr|huge|{tag}"), format!("{kind:?} sampler on a {w}x{h} texture at ({u:e},{v:e}) returned the texel value {t}, texel ({x},{y}) holds {want}"), case); } else { r.nontrivial(); } }
+                }
+            }
+        }));
+    }
     if !quick {
         // all 2^32 bit patterns on one axis, other axis fixed
         let big: Vec<(Kind, u32, u32)> = vec![(Kind::Repeat, 4, 2), (Kind::Repeat, 1, 1), (Kind::Repeat, 16, 8), (Kind::Clamp, 3, 5), (Kind::Clamp, 1, 1), (Kind::Once, 5, 3)];
